@@ -203,3 +203,69 @@ Proof.
   intros Hb W. unfold inner_proto, ref_block, block_wf in *.
   exact (block_from proto_names eng_proto proto_table proto_names_chain eng_proto_lookup eng_proto_kv items 0 body (body_ok_weaken _ _ Hb) W).
 Qed.
+
+(* ---------------------------------------------------------------- per-action-signature block *)
+Lemma lower_same s : StrOps.lower s = TableDef.lower s.
+Proof. induction s as [|c s IH]; [reflexivity|]. cbn [StrOps.lower smap TableDef.lower]. f_equal. exact IH. Qed.
+
+Lemma sig_event_same e : sig_event e = sig_event_name e.
+Proof. unfold sig_event, sig_event_name, TableDef.is_none. rewrite !lower_same. reflexivity. Qed.
+
+Lemma eng_sig_lookup ae i n :
+  lookup String.eqb n (eng_sig (fst ae) (sig_event (snd ae)) (alpha_at i) i) = lookup String.eqb n (sig_table ae i).
+Proof.
+  unfold eng_sig, sig_table, family, counters, camel, snake. rewrite alpha_letter, sig_event_same. cbn [app lookup].
+  change (camel_case_small (fst ae)) with (small_first (fst ae)).
+  change (camel_case_small (sig_event_name (snd ae))) with (small_first (sig_event_name (snd ae))). lookup_cases n.
+Qed.
+
+Lemma eng_sig_kv ae i : forallb (fun kv => no_lg (snd kv)) (sig_table ae i) = true ->
+  forallb kv_ok (eng_sig (fst ae) (sig_event (snd ae)) (alpha_at i) i) = true.
+Proof.
+  unfold sig_table, family, counters, camel, snake. cbn [app forallb snd]. intros H.
+  repeat (apply andb_prop in H as [?H H]). unfold eng_sig. rewrite alpha_letter, sig_event_same.
+  change (camel_case_small (fst ae)) with (small_first (fst ae)).
+  change (camel_case_small (sig_event_name (snd ae))) with (small_first (sig_event_name (snd ae))).
+  cbn [forallb]. unfold kv_ok. cbn [fst snd].
+  repeat match goal with K : no_lg _ = true |- _ => rewrite K; clear K end. reflexivity.
+Qed.
+
+Lemma sig_block_from : forall (sigs : list (string * (string * string))) k body,
+  forallb line_ok body = true ->
+  forallb (fun ix => forallb (fun kv => no_lg (snd kv)) (sig_table (snd ix) (fst ix))) (enumerate_from k (map snd sigs)) = true ->
+  sig_items (alpha_at k) k sigs (map render_line body)
+  = flat_map (fun ix => map (fun l => render_line (map (subst16 (sig_table (snd ix) (fst ix))) l)) body) (enumerate_from k (map snd sigs)).
+Proof.
+  induction sigs as [|[key [a0 e0]] sigs IH]; intros k body Hb W; [reflexivity|].
+  cbn [map enumerate_from forallb fst snd] in W. apply andb_prop in W as [Wv W].
+  cbn [sig_items map enumerate_from flat_map fst snd]. rewrite <- alpha_at_S, (IH (S k) body Hb W). f_equal.
+  rewrite map_map. clear IH W. induction body as [|l body IHb]; [reflexivity|].
+  cbn [forallb] in Hb. apply andb_prop in Hb as [Hl Hb]. cbn [map]. rewrite (IHb Hb). f_equal.
+  rewrite sig_line_chain. pose proof (eng_sig_kv (a0, e0) k Wv) as KV. pose proof (eng_sig_lookup (a0, e0) k) as LK.
+  cbn [fst snd] in KV, LK. rewrite (chain_render _ l KV Hl). f_equal.
+  apply map_ext. apply subst16_ext. exact LK.
+Qed.
+
+Lemma body_ok_line_ok keys body : forallb (body_line_ok keys) body = true -> forallb line_ok body = true.
+Proof.
+  induction body as [|l body IH]; [reflexivity|]. cbn [forallb]. intros H. apply andb_prop in H as [H1 H2].
+  rewrite (IH H2), andb_true_r. unfold body_line_ok in H1. repeat (apply andb_prop in H1 as [H1 ?K]). exact H1.
+Qed.
+
+Lemma block_wf_values {A} (tb : A -> nat -> list (string * string)) : forall items k body,
+  forallb (fun ix => forallb (fun kv => no_lg (snd kv)) (tb (snd ix) (fst ix))
+                     && forallb (fun l => let out := render_line (map (subst16 (tb (snd ix) (fst ix))) l) in
+                                          negb (isspace out) && negb (unmodelled out)) body) (enumerate_from k items) = true ->
+  forallb (fun ix => forallb (fun kv => no_lg (snd kv)) (tb (snd ix) (fst ix))) (enumerate_from k items) = true.
+Proof.
+  induction items as [|x items IH]; intros k body H; [reflexivity|]. cbn [enumerate_from forallb] in *.
+  apply andb_prop in H as [H1 H2]. apply andb_prop in H1 as [H1 _]. rewrite H1, (IH _ _ H2). reflexivity.
+Qed.
+
+Theorem sig_block_is_ref sigs body :
+  forallb (body_line_ok sig_keys) body = true -> block_wf sig_table (map snd sigs) body = true ->
+  inner_actionsigs sigs (map render_line body) None = Some (ref_block sig_table (map snd sigs) body).
+Proof.
+  intros Hb W. unfold inner_actionsigs, ref_block, block_wf in *. f_equal.
+  exact (sig_block_from sigs 0 body (body_ok_line_ok _ _ Hb) (block_wf_values sig_table _ 0 body W)).
+Qed.
